@@ -1520,3 +1520,11 @@ def run(case, upto=None) -> Env:
             break
         apply_step(env, step)
     return env
+
+
+def result_fam_of(env, t, e):
+    """Static family of an expression evaluated against table t (None if it is rejected)."""
+    try:
+        return Evaluator(env, t, "mutate").rows(e).fam
+    except (RefReject, OutOfDomain):
+        return None
